@@ -13,7 +13,7 @@ print("FAILS" if props.witness_still_fails(k["property"], k) else "PASSES")
 ''' % ROOT
 ok = True
 for k in known["fixed"]:
-    if "witness" not in k:
+    if "witness" not in k and k.get("kind") != "schedule":
         continue
     res = {}
     for label, rev in (("parent", k["commit"] + "^"), ("head", "HEAD")):
@@ -30,6 +30,6 @@ for k in known["fixed"]:
         subprocess.run(["git", "-C", "/repo", "worktree", "remove", "--force", wt], capture_output=True)
     good = res["parent"] == "FAILS" and res["head"] == "PASSES"
     ok &= good
-    print("%-8s %s %-40s parent=%s head=%s %s" % (k["property"], k["commit"], k["witness"], res["parent"], res["head"], "" if good else "<<< CHECK"))
+    print("%-8s %s %-40s parent=%s head=%s %s" % (k["property"], k["commit"], k.get("witness", k.get("signature")), res["parent"], res["head"], "" if good else "<<< CHECK"))
 subprocess.run([sys.executable, "-c", "import sys; sys.path.insert(0, '%s/lib'); import vcheck as V; V.prepare({})" % ROOT])
 sys.exit(0 if ok else 1)
